@@ -161,6 +161,15 @@ impl<'c> Tr<'c> {
                     }
                 }
             },
+            // a struct literal the configuration gives a meaning to (key `Name{}` in `calls`; the template names the
+            // variables it is built from)
+            Expr::Struct(st) => {
+                let key = format!("{}{{}}", st.path.segments.last().map(|s| s.ident.to_string()).unwrap_or_default());
+                match self.cfg.calls.iter().find(|(k, _)| *k == key) {
+                    Some((_, g)) => (*g).to_string(),
+                    None => self.miss(format!("struct literal `{key}`")),
+                }
+            }
             Expr::Call(c) => {
                 let f = squash(&c.func);
                 if (f == "mem::take" || f == "std::mem::take") && c.args.len() == 1 {
@@ -614,6 +623,14 @@ impl<'c> Tr<'c> {
                 let term = if exits && i.else_branch.is_none() {
                     let t = self.mst(&i.then_branch.stmts, scope, ret, on_continue);
                     let k = self.mst(rest, scope, ret, on_continue);
+                    format!("if {c} then\n{t}\nelse\n{k}")
+                } else if exits && matches!(&i.else_branch, Some((_, eb)) if matches!(&**eb, Expr::If(_))) {
+                    // `if a { ..; return X; } else if b { .. }` = `if a { ..; return X; }` followed by `if b { .. }`
+                    let t = self.mst(&i.then_branch.stmts, scope, ret, on_continue);
+                    let Some((_, eb)) = &i.else_branch else { unreachable!() };
+                    let mut all: Vec<Stmt> = vec![Stmt::Expr((**eb).clone(), None)];
+                    all.extend(rest.iter().cloned());
+                    let k = self.mst(&all, scope, ret, on_continue);
                     format!("if {c} then\n{t}\nelse\n{k}")
                 } else {
                     let t = self.mst(&i.then_branch.stmts, scope, &w, on_continue);
